@@ -141,8 +141,19 @@ def attr_writes(P: Program, attr: str, include_mutation: bool = True, include_te
             continue
         scopes: List[Func] = list(m.funcs.values()) + [_module_level_func(m)]
         for f in scopes:
-            it = own_nodes(f.node) if f.qual != "<module>" else _module_nodes(m)
+            it = list(own_nodes(f.node)) if f.qual != "<module>" else list(_module_nodes(m))
+            # local aliases of the field:  x = <obj>.attr   (then x[k] = v / x.append(..) write the field)
+            aliases = {n.targets[0].id for n in it if isinstance(n, ast.Assign) and len(n.targets) == 1 and isinstance(n.targets[0], ast.Name)
+                       and isinstance(n.value, ast.Attribute) and n.value.attr == attr}
             for n in it:
+                if aliases:
+                    if isinstance(n, (ast.Assign, ast.AugAssign, ast.Delete)):
+                        for t in (n.targets if isinstance(n, (ast.Assign, ast.Delete)) else [n.target]):
+                            if isinstance(t, ast.Subscript) and isinstance(t.value, ast.Name) and t.value.id in aliases:
+                                out.append(Write(f, n, "item-via-alias", t.value))
+                    if include_mutation and isinstance(n, ast.Call) and isinstance(n.func, ast.Attribute) and n.func.attr in MUTATORS \
+                            and isinstance(n.func.value, ast.Name) and n.func.value.id in aliases:
+                        out.append(Write(f, n, "mutate-via-alias:" + n.func.attr, n.func.value))
                 tg: List[Tuple[ast.expr, str]] = []
                 if isinstance(n, ast.Assign):
                     for t in n.targets:
@@ -431,7 +442,7 @@ def inline_simple_calls(P: Program, e: ast.expr, depth: int = 3) -> ast.expr:
             d = defs[0]
             if any(isinstance(x, ast.Name) and x.id == "property" for x in d.decorators()):
                 return c
-            body = [s for s in d.node.body if not (isinstance(s, ast.Expr) and isinstance(s.value, ast.Constant))]
+            body = [s for s in d.node.body if not (isinstance(s, ast.Expr) and isinstance(s.value, ast.Constant)) and not isinstance(s, ast.Pass)]
             # straight-line body:  (name = expr)*  return expr
             if not body or not isinstance(body[-1], ast.Return) or body[-1].value is None:
                 return c
@@ -465,7 +476,7 @@ def inline_properties(P: Program, e: ast.expr, rel: str, cls: str, selfname: str
     env = {}
     for name, m in c.methods.items():
         if any(isinstance(x, ast.Name) and x.id == "property" for x in m.decorators()):
-            body = [s for s in m.node.body if not (isinstance(s, ast.Expr) and isinstance(s.value, ast.Constant))]
+            body = [s for s in m.node.body if not (isinstance(s, ast.Expr) and isinstance(s.value, ast.Constant)) and not isinstance(s, ast.Pass)]
             if len(body) == 1 and isinstance(body[0], ast.Return) and body[0].value is not None:
                 env[f"{selfname}.{name}"] = norm.Subst({"self": ast.Name(selfname, ast.Load())}).visit(norm.clone(body[0].value))
     return norm.subst(e, env)
